@@ -764,3 +764,12 @@ impl<Ctx: OptCtx> TypeChecked<'_, Ctx> {
         self.type_info.scope_graph.verif_c13_dump()
     }
 }
+
+#[cfg(feature = "verif-hooks")]
+impl<Ctx: OptCtx> LoweredToLir<'_, Ctx> {
+    /// Verification hook (C12): the `lir::Instruction` variant name of every
+    /// instruction, in the order of `verif_c12_dump`.
+    pub fn verif_c12_kinds(&self) -> String {
+        crate::verif_hooks::c12::dump_kinds(&self.ir)
+    }
+}
